@@ -47,10 +47,9 @@ def plan(tier):
         {"h": "num_euclidean_quotient_ii", "sym": SYM2},
         {"h": "num_euclidean_remainder_ii", "sym": SYM2},
         {"h": "num_exact_integer_sqrt_small", "sym": "0 <= x < 2^12"},
-        {"h": "num_expt_minus_3", "sym": "|l| <= 12, exponent -3"},
-        {"h": "num_expt_minus_2", "sym": "|l| <= 12, exponent -2"},
     ]
     # not covered (measured): num_floor_remainder_i_big (real num-bigint division: solver out of memory),
+    # num_expt_* (expt with concrete exponent -2/-3 and |base| <= 12: 900 s timeout),
     # 64x64-bit product equality, gcd/lcm, number<->string
     return q + (t if tier == "thorough" else [])
 
